@@ -120,6 +120,80 @@ fn observe<E: Pairing>(who: &str, a: &N, a2: &N, b: &N) -> Result<Vec<(String, V
     let ml = E::multi_miller_loop([p], [q]);
     let fe = E::final_exponentiation(ml).ok_or_else(|| format!("{who}: final exponentiation failed"))?;
     o.push(("miller_loop+final_exponentiation".into(), ser(&fe, true)));
+    // arithmetic of the tower fields on arbitrary (non-unitary) elements: the pairing itself reads only a
+    // few Frobenius coefficients and never the norm / Legendre / square-root code of the extension fields
+    {
+        use ark_ff::Field;
+        type BPF<E> = <<E as Pairing>::TargetField as Field>::BasePrimeField;
+        fn coords_for<F: Field>(n: usize, salt: u64, a: &N, a2: &N, b: &N) -> Vec<F::BasePrimeField> {
+            (0..n as u64)
+                .map(|i| {
+                    let v = (a + 1u32) * (b + i + 1u32).pow(3) * (a2 + salt + 3u32).pow(2) + i * 0x9e37_79b9u64 + salt;
+                    F::BasePrimeField::from_le_bytes_mod_order(&v.to_bytes_le())
+                })
+                .collect()
+        }
+        let coords = |n: usize, salt: u64| -> Vec<BPF<E>> { coords_for::<E::TargetField>(n, salt, a, a2, b) };
+        let rand12 = E::TargetField::from_base_prime_field_elems(&coords(12, 1)).ok_or_else(|| format!("{who}: from_base_prime_field_elems(12)"))?;
+        let sparse12 = {
+            let mut c = coords(12, 2);
+            for k in [1usize, 2, 3, 6, 7, 8, 9] {
+                c[k] = BPF::<E>::from(0u64);
+            }
+            E::TargetField::from_base_prime_field_elems(&c).ok_or_else(|| format!("{who}: from_base_prime_field_elems(12)"))?
+        };
+        for (name, x) in [("Fp12(arbitrary)", rand12), ("Fp12(sparse)", sparse12), ("miller_loop", ml.0), ("e(aG1,bG2)", e_pq.0)] {
+            let mut iter = x;
+            for k in 0..=13usize {
+                let mut y = x;
+                y.frobenius_map_in_place(k);
+                o.push((format!("{name}.frobenius_map({k})"), ser(&y, false)));
+                if y != iter {
+                    return Err(format!("{who}: {name}: frobenius_map({k}) is not frobenius_map(1) applied {k} times"));
+                }
+                iter.frobenius_map_in_place(1);
+            }
+            if let Some(inv) = x.inverse() {
+                o.push((format!("{name}.inverse"), ser(&inv, false)));
+                if inv * x != E::TargetField::ONE {
+                    return Err(format!("{who}: {name}: x * x^-1 != 1"));
+                }
+            }
+            o.push((format!("{name}.square"), ser(&x.square(), false)));
+            o.push((format!("{name}.pow(5)"), ser(&x.pow([5u64]), false)));
+            let l = std::panic::catch_unwind(std::panic::AssertUnwindSafe(|| x.legendre())).map_err(|_| format!("{who}: {name}: legendre() panicked (norm assertion)"))?;
+            o.push((format!("{name}.legendre"), vec![if l.is_zero() { 0 } else if l.is_qr() { 1 } else { 2 }]));
+            // (the square root of the degree-12 field is not implemented in ark-ff 0.4: its cubic
+            // sub-extension has no SQRT_PRECOMP and panics with `unimplemented!` in every engine)
+            let sq = x.square();
+            let lsq = std::panic::catch_unwind(std::panic::AssertUnwindSafe(|| sq.legendre())).map_err(|_| format!("{who}: {name}: legendre() of a square panicked"))?;
+            if !x.is_zero() && !lsq.is_qr() {
+                return Err(format!("{who}: {name}: legendre(x^2) does not say 'square'"));
+            }
+        }
+        type F2<E> = <<E as Pairing>::G2Affine as AffineRepr>::BaseField;
+        let c2 = coords_for::<F2<E>>(2, 5, a, a2, b);
+        let u = F2::<E>::from_base_prime_field_elems(&c2[..]).ok_or_else(|| format!("{who}: Fp2 from_base_prime_field_elems"))?;
+        let mut iter = u;
+        for k in 0..=5usize {
+            let mut y = u;
+            y.frobenius_map_in_place(k);
+            o.push((format!("Fp2.frobenius_map({k})"), ser(&y, false)));
+            if y != iter {
+                return Err(format!("{who}: Fp2: frobenius_map({k}) is not frobenius_map(1) applied {k} times"));
+            }
+            iter.frobenius_map_in_place(1);
+        }
+        if let Some(inv) = u.inverse() {
+            o.push(("Fp2.inverse".into(), ser(&inv, false)));
+        }
+        let l = u.legendre();
+        o.push(("Fp2.legendre".into(), vec![if l.is_zero() { 0 } else if l.is_qr() { 1 } else { 2 }]));
+        match u.square().sqrt() {
+            Some(r) if r.square() == u.square() => {}
+            _ => return Err(format!("{who}: Fp2: sqrt(u^2) is not a square root of u^2")),
+        }
+    }
     // laws
     if fe != e_pq {
         return Err(format!("{who}: pairing != final_exponentiation(miller_loop)"));
